@@ -44,9 +44,15 @@ structure ResOut where
   atomPos : List (Nat × V3)
 deriving Repr, DecidableEq
 
-/-- `sorted(idx_nodes, key=idx_nodes.get)` (stable) -/
+/-- insertion into a list sorted by `index`, before the first element that is not smaller -/
+def insertIdx (x : Nat × Nat) : List (Nat × Nat) → List (Nat × Nat)
+  | [] => [x]
+  | y :: ys => if x.2 ≤ y.2 then x :: y :: ys else y :: insertIdx x ys
+
+/-- `sorted(idx_nodes, key=idx_nodes.get)`: stable sort by the `index` attribute (insertion sort from
+the right keeps equal keys in their original order) -/
 def sortByIndex (atoms : List (Nat × Nat)) : List Nat :=
-  (atoms.mergeSort (fun a b => a.2 ≤ b.2)).map (·.1)
+  (atoms.foldr insertIdx []).map (·.1)
 
 /-- the two nested loops over `self.molecules` and `meta_mol.nodes`, on the concatenated residue list
 (the counter `total` runs across molecules).  `metaRes` is `resolution == 'meta_mol'`.
@@ -92,6 +98,14 @@ def gndxTable : List Walk.Mol → Nat → Nat → List ((Nat × Walk.Node) × Na
     if m.ignored then gndxTable ms (molCount + 1) idx
     else (m.nodes.zipIdx.map (fun nk => ((molCount, nk.1), idx + nk.2))) ++
          gndxTable ms (molCount + 1) (idx + m.nodes.length)
+
+/-- specification of the table (C04_ignore_table) as a check on an observed table -/
+def specTable (mols : List Walk.Mol) (table : List ((Nat × Walk.Node) × Nat)) : Bool :=
+  (table.map (·.2) == List.range table.length) &&
+  (table.map (·.1)).all (fun jn => match mols[jn.1]? with
+    | some m => !m.ignored && m.nodes.contains jn.2
+    | none => false) &&
+  (mols.zipIdx.all fun mj => mj.1.ignored || mj.1.nodes.all (fun n => (table.map (·.1)).contains (mj.2, n)))
 
 /-- `update_positions_in_molecules`: the `position` attribute of residue `n` of molecule `j` after the
 build (`none` = no attribute / not finite) -/
